@@ -224,21 +224,28 @@ Proof. unfold cv_adj. assert (Z0 : forall l f k0, dotf (repeat 0 l) f k0 == 0) b
   rewrite Z0. ring. Qed.
 
 (* b_star of the model (closed forms for one / two controls) solves the normal equations when it is not the fall-back *)
-Lemma b_star_1_normal n X Y : (0 < n)%nat -> Qltb (Qabs (Cn n (X 0%nat) (X 0%nat))) cv_eps = false ->
-  normal_eq n (b_star n 1 X Y) X Y.
-Proof. intros Hn Ht. unfold b_star. rewrite Ht. intros j Hj. simpl in Hj. assert (j = 0%nat) by lia. subst j. simpl.
-  apply Qltb_false in Ht. assert (Hs : ~ Cn n (X 0%nat) (X 0%nat) == 0).
-  { intro E. rewrite E in Ht. revert Ht. vm_compute. intro H. apply H. reflexivity. }
+Lemma En_sq_nonneg n x : (0 < n)%nat -> 0 <= En n (fun i => x i * x i).
+Proof. intros Hn. unfold En, Qdiv. apply Qmult_le_0_compat.
+  - apply Qsum_map_nonneg. intros i. apply Qsq_nonneg.
+  - apply Qinv_le_0_compat. unfold qnat. change 0 with (inject_Z 0). rewrite <- Zle_Qle. lia. Qed.
+
+Lemma not_degenerate_pos n x : (0 < n)%nat -> degenerate n x = false -> 0 < Cn n x x.
+Proof. intros Hn H. unfold degenerate in H. apply Qle_bool_false in H.
+  eapply Qle_lt_trans; [|exact H]. apply Qmult_le_0_compat; [discriminate|now apply En_sq_nonneg]. Qed.
+
+Lemma b_star_1_normal n X Y : (0 < n)%nat -> degenerate n (X 0%nat) = false -> normal_eq n (b_star1 n X Y) X Y.
+Proof. intros Hn Ht. unfold b_star1. rewrite Ht. intros j Hj. simpl in Hj. assert (j = 0%nat) by lia. subst j. simpl.
+  pose proof (not_degenerate_pos n _ Hn Ht) as Hp.
+  assert (Hs : ~ Cn n (X 0%nat) (X 0%nat) == 0) by (intro E; rewrite E in Hp; now apply Qlt_irrefl in Hp).
   field. exact Hs. Qed.
 
 Lemma b_star_2_normal n X Y : (0 < n)%nat ->
   let a := Cn n (X 0%nat) (X 0%nat) in let c := Cn n (X 0%nat) (X 1%nat) in let d := Cn n (X 1%nat) (X 1%nat) in
-  Qltb (Qminb (Qabs a) (Qminb (Qabs c) (Qabs d))) cv_eps = false -> ~ a * d - c * c == 0 ->
-  normal_eq n (b_star n 2 X Y) X Y.
-Proof. intros Hn a c d Ht Hdet. unfold b_star. fold a c d. rewrite Ht. intros j Hj. simpl in Hj.
+  (degenerate n (X 0%nat) || degenerate n (X 1%nat))%bool = false -> ~ a * d - c * c == 0 ->
+  normal_eq n (b_star2 n X Y) X Y.
+Proof. intros Hn a c d Ht Hdet. unfold b_star2. fold a c d. rewrite Ht. intros j Hj. simpl in Hj.
   assert (Hc : Cn n (X 1%nat) (X 0%nat) == c) by apply (Cn_sym n Hn).
   destruct j as [|[|j]]; [| |lia]; simpl; fold a c d; rewrite ?Hc; field; exact Hdet. Qed.
-
 
 (* ------------------------------------------------------------------ statements as used by Properties/C07.v *)
 Theorem price_is_df_mean_full (payoff : Q -> list Q) (path : nat -> Q) df notional n init d j :
@@ -260,14 +267,32 @@ Theorem cv_mean_full n : (0 < n)%nat -> forall b p X Y,
 Proof. intros Hn b p X Y. split; [now apply cv_mean|now apply cv_mean_unbiased]. Qed.
 
 Theorem b_star_normal n X Y : (0 < n)%nat ->
-  (Qltb (Qabs (Cn n (X 0%nat) (X 0%nat))) cv_eps = false -> normal_eq n (b_star n 1 X Y) X Y)
+  (degenerate n (X 0%nat) = false -> normal_eq n (b_star1 n X Y) X Y)
   /\ (let a := Cn n (X 0%nat) (X 0%nat) in let c := Cn n (X 0%nat) (X 1%nat) in let d := Cn n (X 1%nat) (X 1%nat) in
-      Qltb (Qminb (Qabs a) (Qminb (Qabs c) (Qabs d))) cv_eps = false -> ~ a * d - c * c == 0 ->
-      normal_eq n (b_star n 2 X Y) X Y).
+      (degenerate n (X 0%nat) || degenerate n (X 1%nat))%bool = false -> ~ a * d - c * c == 0 ->
+      normal_eq n (b_star2 n X Y) X Y).
 Proof. intros Hn. split; [now apply b_star_1_normal|now apply b_star_2_normal]. Qed.
 
-(* several pricings on one engine: each uses exactly its own paths, whatever the previous pricing left behind *)
-Theorem price_seq_own_paths : forall ps prev, Forall (fun p => length (p_init p) = p_n p) ps ->
-  price_seq prev ps = map (fun p => map (std_row (p_payoff p) (p_path p) (p_df p) (p_notional p)) (seq 0 (p_n p))) ps.
-Proof. induction ps as [|p r IH]; intros prev H; [reflexivity|]. inversion H as [|? ? Hp Hr]; subst. simpl.
-  unfold reprice at 1. rewrite (engine_rows _ _ _ _ _ _ Hp). f_equal. apply IH. exact Hr. Qed.
+(* the code's b for one / two controls never increases the variance: composition of the two theorems above *)
+Theorem cv_variance_with_code_b n p X Y : (0 < n)%nat ->
+  Cn n (cv_adj (b_star1 n X Y) p X Y) (cv_adj (b_star1 n X Y) p X Y) <= Cn n Y Y
+  /\ (~ Cn n (X 0%nat) (X 0%nat) * Cn n (X 1%nat) (X 1%nat) - Cn n (X 0%nat) (X 1%nat) * Cn n (X 0%nat) (X 1%nat) == 0 ->
+      Cn n (cv_adj (b_star2 n X Y) p X Y) (cv_adj (b_star2 n X Y) p X Y) <= Cn n Y Y).
+Proof. intros Hn. split.
+  - destruct (degenerate n (X 0%nat)) eqn:E.
+    + unfold b_star1. rewrite E. rewrite (Cn_ext n Hn _ Y _ Y) by (intros; apply (cv_adj_zero 1)). apply Qle_refl.
+    + apply (cv_variance n Hn _ p X Y). now apply b_star_1_normal.
+  - intros Hdet. destruct (degenerate n (X 0%nat) || degenerate n (X 1%nat))%bool eqn:E.
+    + unfold b_star2. rewrite E. rewrite (Cn_ext n Hn _ Y _ Y) by (intros; apply (cv_adj_zero 2)). apply Qle_refl.
+    + apply (cv_variance n Hn _ p X Y). now apply b_star_2_normal. Qed.
+
+(* several pricings on one engine: each uses exactly its own paths, whatever np.empty hands back -- in particular the rows
+   of the previous pricing (the engine's state) *)
+Theorem price_seq_own_paths (np_empty : list (list Q) -> nat -> list (list Q)) :
+  (forall prev n, length (np_empty prev n) = n) ->
+  forall ps prev,
+    price_seq np_empty prev ps = map (fun p => map (std_row (p_payoff p) (p_path p) (p_df p) (p_notional p)) (seq 0 (p_n p))) ps.
+Proof. intros Hlen. induction ps as [|p r IH]; intros prev; [reflexivity|]. simpl.
+  unfold reprice at 1. rewrite (engine_rows _ _ _ _ _ _ (Hlen prev (p_n p))). f_equal. apply IH. Qed.
+Lemma recycling_empty_length prev n : length (recycling_empty prev n) = n.
+Proof. unfold recycling_empty. rewrite firstn_length, app_length, repeat_length. lia. Qed.
